@@ -188,6 +188,8 @@ func vrtTier() int {
 }
 func vrtEventCount(kind string) int { return 0 }
 
+func vrtKnown(id string, inRegion bool) bool { return inRegion }
+
 func vrtNote(msg string) { vrtS.notes = append(vrtS.notes, msg) }
 
 type vrtTree struct {
